@@ -448,6 +448,7 @@ class Simulator(EventProducer, SimulatorInterface, Generic[TIME]):
         will not yet be executed."""
         # a refused command must not touch the bound of a run in progress
         self._check_start()
+        self._check_stop_time(stop_time)
         self._run_until_time = stop_time
         self._run_until_including = False
         self._start_impl()
@@ -458,10 +459,19 @@ class Simulator(EventProducer, SimulatorInterface, Generic[TIME]):
         will be executed."""
         # a refused command must not touch the bound of a run in progress
         self._check_start()
+        self._check_stop_time(stop_time)
         self._run_until_time = stop_time
         self._run_until_including = True
         self._start_impl()
     
+    def _check_stop_time(self, stop_time: TIME):
+        """The bound of a bounded run has to lie between the current simulator 
+        time and the end time of the replication; otherwise the clock would 
+        move backwards, or events after the replication end would be executed."""
+        if not (self._simulator_time <= stop_time 
+                and stop_time <= self._replication.end_sim_time):
+            raise DSOLError("stop time before simulator time or after run length")
+
     def warmup(self):
         self.fire_timed(self.simulator_time,
                         ReplicationInterface.WARMUP_EVENT, None)
